@@ -2152,6 +2152,21 @@ fn prop_corpus(s: Stream) -> Vec<KCase> {
             c.base.source = 0;
             c.base.target = Some(13);
             v.push(c);
+            // a k-shortest-paths algorithm as the `underlying` of another: the outer single-via search asks
+            // its underlying for a REVERSE tree; an underlying that answers the reverse query as if it were
+            // forward makes the outer routes discontiguous (0->1, 1->2, 5->2 on this grid before the repair)
+            for (cfg, label) in [
+                (serde_json::json!({"type": "ksp_single_via", "k": 3, "underlying": {"type": "yens", "k": 2, "underlying": {"type": "dijkstra"}}}), "c01-nested-single-via-over-yens"),
+                (serde_json::json!({"type": "ksp_single_via", "k": 3, "underlying": {"type": "ksp_single_via", "k": 2, "underlying": {"type": "dijkstra"}}}), "c01-nested-single-via-over-single-via"),
+                (serde_json::json!({"type": "ksp_single_via", "k": 4, "underlying": {"type": "yens", "k": 3, "underlying": {"type": "a*", "weight_factor": 1.0}}}), "c01-nested-single-via-over-yens-astar"),
+            ] {
+                let mut c = kcase(two_by_three_grid(), label);
+                c.yen = false;
+                c.k_default = cfg["k"].as_u64().unwrap_or(3) as usize;
+                c.cfg = Some(cfg);
+                c.cfg_ok = Some(true);
+                v.push(c);
+            }
         }
         Stream::C03 => {
             // tsp 0 -> 4 -> 3; alternative 0 -e2-> 1 -e3-> 2 -e4-> 3 through via vertex 2 (popped first: its
@@ -2511,7 +2526,7 @@ fn run_single_via_prop(ctx: &mut Ctx, idx: usize, kc: &KCase, s: Stream) {
         }
     };
     let mut ex = exec_ksp(kc, &b, &kc.sim);
-    fix_scheds_single_via(kc, &mut ex);
+    fix_scheds(kc, &mut ex);
     if let Outcome::Ok(r) = &ex.outcome {
         if threshold_unstable(kc, r) {
             return;
